@@ -36,3 +36,29 @@ add("C13", "exploration", "bounded-exhaustive enumeration of the complete tempor
 add("C14", "exploration", "bounded-exhaustive enumeration: complete temporal-level domains and environmental slices, each view compared with an independent lower-level decode (differential oracle)",
     "Differential oracle without a hand-written expected value: the embedded view vs a fresh lower-level decode of the projected vector, including the complete private state.",
     "Trusted: reflection-based state dump (mc/internal/dump).", "6 (C14)", "ENUM")
+
+ENGINES.append({"name": "GRAPH", "path": "mc/cmd/cvssmc/graph*.go", "serves_properties": ["C01", "C07", "C08", "C09", "C10", "C11", "C12"],
+     "kind_free_text": "explicit-state breadth-first search of the real decoders (state = reflective dump of the decoder object + residue), every transition executed on the implementation and judged by a reference recogniser; stateless permutation sets, edit balls, all short byte strings (DESIGN.md 5.2)"})
+GRAPH_NOTE = "Trusted: the reference recogniser/encoder mc/internal/lang (written from the property text), the specification tables mc/internal/spec, the hand-written code->constant table mc/internal/lib/enums.go, reflection-based state dumps. State merging is on the implementation's complete object state plus the residue only. "
+
+add("C01", "model_checking", "explicit-state model checking of the real v3 base decoder over all values (138,240 states, every transition executed on the implementation) with the exact rational score oracle at every accepting transition, plus complete enumeration of the 5,184 vectors through all three decoders",
+    "Complete closure: every reachable state of the base decoder over all values and both versions is expanded with every token of the alphabet, so every token order of every valid base vector is a path; the score oracle is exact (big.Rat).",
+    GRAPH_NOTE + ENUM_NOTE, "5.2, 6 (C01)", "GRAPH+ENUM")
+add("C07", "model_checking", "explicit-state model checking of the three v3 decoders against a reference recogniser (product of model and implementation, every transition validated on the implementation), plus stateless permutation sets, edit balls and all short byte strings",
+    "Acceptance is a property of the whole string language; the search executes every (state, token) transition of every expanded decoder state, so longer inputs only revisit explored transitions. Base decoder closed completely; temporal/environmental decoders closed per level over representative lower-level configurations.",
+    GRAPH_NOTE, "5.2, 6 (C07)", "GRAPH")
+add("C08", "model_checking", "explicit-state model checking of the three v2 decoders (seen-set x deferred x canonical-order residue) against a reference recogniser, plus group permutations, edit balls and all short byte strings",
+    "As C07 for v2; the residue additionally tracks whether first occurrences are in canonical order, which is what the decoder's final comparison with its re-encoding depends on.",
+    GRAPH_NOTE, "5.2, 6 (C08)", "GRAPH")
+add("C09", "model_checking", "explicit-state model checking of all six decoders with a field-level oracle at every accepting transition and path-independence (same token set => same observables) checked across all explored paths, plus complete enumeration of the temporal-level domains",
+    "Fields are compared with hand-associated library constants at every accepting state; order independence follows from state merging plus the stateless permutation sets; explicit X vs omission compared through a normalised key.",
+    GRAPH_NOTE, "5.2, 6 (C09)", "GRAPH+ENUM")
+add("C10", "model_checking", "explicit-state model checking of all six decoders with the canonical-encoding oracle and decode-encode-decode identity at every accepting transition, plus complete enumeration of the temporal-level domains",
+    "The reference encoder computes the canonical text from the token set alone; every accepted string of the graphs, permutation sets and enumerations is compared byte for byte and decoded again.",
+    GRAPH_NOTE, "5.2, 6 (C10)", "GRAPH+ENUM")
+add("C11", "model_checking", "explicit-state model checking of all six decoders against a defect classifier (admissible-sentinel sets) on every rejecting transition, plus a constructed single-defect catalogue, edit balls and all short byte strings",
+    "Every rejected string must match exactly one exported sentinel and that sentinel must name a defect the reference finds in the input; single-defect inputs have singleton sets, so the reported kind is pinned exactly.",
+    GRAPH_NOTE, "5.2, 6 (C11)", "GRAPH")
+add("C12", "model_checking", "explicit-state model checking of all six decoders for totality (no panic, object xor error, nil-receiver agreement, sanity of every distinct object left behind by a failed decode), all byte strings <=5/6 over a 12-byte alphabet, 1 MiB inputs, observers on nil/fresh objects, single-field resets",
+    "Totality over 'any string' rests on the closure of the decoder graphs (every transition of every expanded state executed) plus exhaustive short byte strings; receiver states are enumerated as nil, fresh, every distinct failed-decode state reached, and decoded objects with each field reset.",
+    GRAPH_NOTE + "IsEmpty() on a nil v2 receiver is outside the property's operation list.", "5.2, 5.3, 6 (C12)", "GRAPH")
